@@ -30,26 +30,34 @@ AllFields == OptFields \cup DescFields
 
 Diff(a, b) == {f \in AllFields : a[f] # b[f]}
 
-Hash(c) == [f \in HashedFields |-> c[f]]
+\* fx = FALSE: the code today.  fx = TRUE: with the proposed fix -- the option hash also covers
+\* the other content-affecting options (TrigramMax; ScipCTagsPath and LanguageMap while ctags is
+\* enabled) and MergeMutable also merges Metadata.
+Hash(fx, c) ==
+  <<[f \in HashedFields |-> c[f]],
+    IF fx THEN <<c.TrigramMax, IF c.DisableCTags THEN "" ELSE c.ScipCTagsPath,
+                 IF c.DisableCTags THEN "" ELSE c.LanguageMap>>
+    ELSE <<>> >>
 
 \* keys MergeMutable ignores in RawConfig
 RawPairs(c) == {x \in ToSet(c.RawConfig) : x.k \notin {"name", "id"}}
 
 \* MergeMutable reports an update
-MutableChange(a, b) ==
+MutableChange(fx, a, b) ==
   \/ RawPairs(b) \ ToSet(a.RawConfig) # {}
   \/ \E f \in MutableFields \ {"RawConfig"} : a[f] # b[f]
+  \/ fx /\ ToSet(b.Metadata) \ ToSet(a.Metadata) # {}
 
 \* Options.IndexState for request b against an index built from a (fault: what happened to
 \* the shard since)
-Classify(fault, a, b) ==
+Classify(fx, fault, a, b) ==
   IF fault = "no-index" THEN "missing"
   ELSE IF a.Name # b.Name THEN "missing"            \* the shard file name is derived from Name
   ELSE IF fault # "none" THEN "corrupt"
-  ELSE IF Hash(a) # Hash(b) THEN "option-mismatch"
+  ELSE IF Hash(fx, a) # Hash(fx, b) THEN "option-mismatch"
   ELSE IF a.Branches # b.Branches THEN "content-mismatch"
   ELSE IF a.ID # b.ID THEN "content-mismatch"
-  ELSE IF MutableChange(a, b) THEN "meta-mismatch"
+  ELSE IF MutableChange(fx, a, b) THEN "meta-mismatch"
   ELSE "equal"
 
 \* mergeMeta (Repository.MergeMutable): the description after the metadata path.  Keys of the
@@ -58,10 +66,14 @@ MergedRaw(a, b) ==
   SelectSeq(a.RawConfig, LAMBDA x : ~\E y \in RawPairs(b) : y.k = x.k)
     \o SelectSeq(b.RawConfig, LAMBDA y : y.k \notin {"name", "id"})
 
-Merged(a, b) ==
+MergedMeta(a, b) ==
+  SelectSeq(a.Metadata, LAMBDA x : ~\E y \in ToSet(b.Metadata) : y.k = x.k) \o b.Metadata
+
+Merged(fx, a, b) ==
   [f \in DOMAIN a |->
      IF f \in MutableFields \ {"RawConfig"} THEN b[f]
      ELSE IF f = "RawConfig" THEN MergedRaw(a, b)
+     ELSE IF f = "Metadata" /\ fx THEN MergedMeta(a, b)
      ELSE a[f]]
 
 \* ---------------------------------------------------------------- what the options do to a document
